@@ -207,12 +207,52 @@ def make_case(rng, kind, nind, inputs, lengths, distinct=True, form=None, pos_mo
     if not distinct and pos_mode is None:
         pos_mode = rng.choice([m for m in POS_MODES if m != 'shaped'])
     case['data'] = gen_data(rng, nsrc, runs_vertex_labels, pos_mode, dents)
+    case['instances'], case['order'] = gen_instances(rng)
     if kind == 'polylist':
         case['vcounts'] = list(lengths)
         case['ps'] = [labels]
     else:
         case['ps'] = ps
     return case
+
+
+def gen_matrix(rng):
+    """row-major 4x4 with small integer entries: translations, signed axis permutations, scalings, general"""
+    r = rng.random()
+    t = [rng.randint(-4, 4) for _ in range(3)]
+    if r < 0.15:
+        R = [[1, 0, 0], [0, 1, 0], [0, 0, 1]]
+    elif r < 0.5:
+        perm = [0, 1, 2]
+        rng.shuffle(perm)
+        R = [[(rng.choice([-1, 1]) if c == perm[r_] else 0) for c in range(3)] for r_ in range(3)]
+    elif r < 0.7:
+        R = [[(rng.choice([2, -2, 3]) if c == r_ else 0) for c in range(3)] for r_ in range(3)]
+    else:
+        R = [[rng.randint(-2, 2) for _ in range(3)] for _ in range(3)]
+    return [float(x) for r_ in range(3) for x in (R[r_] + [t[r_]])] + [0.0, 0.0, 0.0, 1.0]
+
+
+def gen_instances(rng):
+    """scene instances of the geometry (matrix, material binding) and the order in which the unbound
+    primitive ('u') and the instances are triangulated"""
+    n = rng.choice([1, 1, 1, 2, 2, 3, 4])
+    style = rng.random()
+    insts = []
+    for i in range(n):
+        m = None if (n == 1 and rng.random() < 0.5) else gen_matrix(rng)
+        if style < 0.4:
+            mat = None
+        elif style < 0.7:
+            mat = 'A'                                   # all instances bind the same material
+        else:
+            mat = rng.choice([None, 'A', 'B'])
+        insts.append({'matrix': m, 'material': mat})
+    if n >= 2 and rng.random() < 0.2:
+        insts[1]['matrix'] = list(insts[0]['matrix'])   # two instances at the same place
+    order = ['u'] + list(range(n))
+    rng.shuffle(order)
+    return insts, order
 
 
 def gen_case(rng, kind=None):
@@ -453,6 +493,7 @@ def run(ctx):
     ntri = 0
     nondistinct = 0
     pmodes = {}
+    ninst = {}
     unsorted_sets = 0
     for c, r in zip(cases, results):
         if c['kind'] == 'slice':
@@ -468,6 +509,7 @@ def run(ctx):
         nondistinct += 0 if c.get('distinct', True) else 1
         t = sum(max(n - 2, 0) for n in lens)
         ntri += t
+        ninst[len(c.get('instances') or [1])] = ninst.get(len(c.get('instances') or [1]), 0) + 1
         pmodes[c.get('data', {}).get('pos_mode', 'default')] = pmodes.get(c.get('data', {}).get('pos_mode', 'default'), 0) + 1
         sets = [st for s_, o, st in c['inputs'] if s_ == 'TEXCOORD']
         if len(sets) >= 2 and sets != sorted(sets, key=lambda x: -1 if x is None else x):
@@ -480,6 +522,7 @@ def run(ctx):
         'rule': 'real COLLADA documents (five sources, <vertices>, one primitive, a scene) loaded by pycollada; '
                 'kinds tristrips/trifans/polylist/polygons in equal shares, 1..9 runs of lengths 0..12 (0, 1, 2 frequent), '
                 'strides 1..4 with 1..7 inputs (VERTEX, <=2 NORMAL, <=3 TEXCOORD with arbitrary set numbers, COLOR) at arbitrary (also shared) offsets in arbitrary document order, '
+                '1..4 scene instances of the geometry (integer matrices, same / different / no material binding) triangulated in random order relative to each other and to the unbound primitive, '
                 'source data varied per case (collinear, planar grid, tilted plane, space, few coincident points, all zero, infinities, outlines with reflex corners / self-intersections), '
                 'pairwise distinct labels in 85 % of the cases; non-trivial = at least one triangle expected; '
                 'distinct = different (kind, stride, inputs, length vector); plus a fixed list of boundary shapes '
@@ -489,7 +532,7 @@ def run(ctx):
                     for c, r in list(zip(cases, results))[ncorpus + len(bnd):ncorpus + len(bnd) + 3]],
         'distribution': {'by_kind': by_kind, 'by_stride': by_stride, 'runs_per_primitive': nruns,
                          'run_length_histogram': runlen, 'empty_p_spelling': forms, 'triangles_expected': ntri,
-                         'cases_with_repeated_labels': nondistinct, 'position_data_mode': pmodes,
+                         'cases_with_repeated_labels': nondistinct, 'position_data_mode': pmodes, 'scene_instances_per_case': ninst,
                          'cases_with_texcoord_sets_listed_out_of_order': unsorted_sets, 'runtime_slice_cases': nslice,
                          'boundary_cases': len(bnd), 'corpus_cases': ncorpus, 'exhaustive_slice_cases': nexh},
         'mismatches': mismatches,
